@@ -117,6 +117,19 @@ pub struct TransportHandle {
     periodic_tasks_handle: Arc<RwLock<Option<JoinHandle<()>>>>,
     recv_handles: Arc<RwLock<Vec<JoinHandle<()>>>>,
     listener_handle: Arc<RwLock<Option<JoinHandle<()>>>>,
+    /// Simulated transport (deterministic-simulation seam); `None` in real use.
+    #[cfg(feature = "verif-hooks")]
+    verif: Option<VerifTransport>,
+}
+
+/// State of the simulated transport seam.
+#[cfg(feature = "verif-hooks")]
+struct VerifTransport {
+    net: Arc<dyn crate::verif_hooks::SimNet>,
+    transport_id: String,
+    inbound_tx: std::sync::Mutex<
+        Option<tokio::sync::mpsc::Sender<(ant_quic::nat_traversal_api::PeerId, Vec<u8>)>>,
+    >,
 }
 
 // ============================================================================
@@ -262,6 +275,8 @@ impl TransportHandle {
             periodic_tasks_handle,
             recv_handles: Arc::new(RwLock::new(Vec::new())),
             listener_handle: Arc::new(RwLock::new(None)),
+            #[cfg(feature = "verif-hooks")]
+            verif: None,
         })
     }
 
@@ -318,6 +333,8 @@ impl TransportHandle {
             periodic_tasks_handle: Arc::new(RwLock::new(None)),
             recv_handles: Arc::new(RwLock::new(Vec::new())),
             listener_handle: Arc::new(RwLock::new(None)),
+            #[cfg(feature = "verif-hooks")]
+            verif: None,
         })
     }
 }
@@ -337,6 +354,10 @@ impl TransportHandle {
     /// This is the ID used in `P2PEvent::Message.source`, `connected_peers()`,
     /// and `send_message()`. It differs from `peer_id()` which is the app-level ID.
     pub fn transport_peer_id(&self) -> Option<String> {
+        #[cfg(feature = "verif-hooks")]
+        if let Some(v) = self.verif.as_ref() {
+            return Some(v.transport_id.clone());
+        }
         if let Some(ref v4) = self.dual_node.v4 {
             return Some(ant_peer_id_to_string(&v4.our_peer_id()));
         }
@@ -469,12 +490,18 @@ impl TransportHandle {
         let normalized_addr = normalize_wildcard_to_loopback(socket_addr);
         let addr_list = vec![normalized_addr];
 
-        let peer_id = match tokio::time::timeout(
-            self.connection_timeout,
-            self.dual_node.connect_happy_eyeballs(&addr_list),
-        )
-        .await
-        {
+        let dial = async {
+            #[cfg(feature = "verif-hooks")]
+            if let Some(v) = self.verif.as_ref() {
+                return match v.net.dial(&v.transport_id, normalized_addr).await {
+                    Ok(id) => crate::transport::ant_quic_adapter::string_to_ant_peer_id(&id)
+                        .map_err(|e| anyhow::anyhow!("simulated dial returned a bad id: {e}")),
+                    Err(e) => Err(anyhow::anyhow!(e)),
+                };
+            }
+            self.dual_node.connect_happy_eyeballs(&addr_list).await
+        };
+        let peer_id = match tokio::time::timeout(self.connection_timeout, dial).await {
             Ok(Ok(peer)) => {
                 let connected_peer_id = ant_peer_id_to_string(&peer);
 
@@ -540,6 +567,10 @@ impl TransportHandle {
     pub async fn disconnect_peer(&self, peer_id: &PeerId) -> Result<()> {
         info!("Disconnecting from peer: {}", peer_id);
 
+        #[cfg(feature = "verif-hooks")]
+        if let Some(v) = self.verif.as_ref() {
+            v.net.disconnect(&v.transport_id, peer_id).await;
+        }
         self.dual_node.disconnect_peer_string(peer_id).await.ok();
         self.active_connections.write().await.remove(peer_id);
 
@@ -619,9 +650,19 @@ impl TransportHandle {
             raw_data_len
         );
 
-        let send_fut = self
-            .dual_node
-            .send_to_peer_string_optimized(peer_id, &message_data);
+        let send_fut = async {
+            #[cfg(feature = "verif-hooks")]
+            if let Some(v) = self.verif.as_ref() {
+                return v
+                    .net
+                    .send(&v.transport_id, peer_id, message_data.clone())
+                    .await
+                    .map_err(|e| anyhow::anyhow!(e));
+            }
+            self.dual_node
+                .send_to_peer_string_optimized(peer_id, &message_data)
+                .await
+        };
         let result = tokio::time::timeout(self.connection_timeout, send_fut)
             .await
             .map_err(|_| {
@@ -936,6 +977,12 @@ impl TransportHandle {
         if let Some(v4) = self.dual_node.v4.as_ref() {
             handles.push(v4.spawn_recv_task(tx.clone(), self.shutdown.clone()));
         }
+        #[cfg(feature = "verif-hooks")]
+        if let Some(v) = self.verif.as_ref()
+            && let Ok(mut slot) = v.inbound_tx.lock()
+        {
+            *slot = Some(tx.clone());
+        }
         drop(tx);
 
         let event_tx = self.event_tx.clone();
@@ -1033,6 +1080,12 @@ impl TransportHandle {
         info!("Stopping transport...");
 
         self.shutdown.cancel();
+        #[cfg(feature = "verif-hooks")]
+        if let Some(v) = self.verif.as_ref()
+            && let Ok(mut slot) = v.inbound_tx.lock()
+        {
+            slot.take();
+        }
         self.dual_node.shutdown_endpoints().await;
 
         // Await recv system tasks
@@ -1431,6 +1484,112 @@ impl NetworkSender for TransportHandle {
 
     fn local_peer_id(&self) -> &PeerId {
         self.peer_id()
+    }
+}
+
+/// Deterministic-simulation seam (only with feature `verif-hooks`): a transport
+/// handle without sockets whose dials and sends go through a [`SimNet`], and whose
+/// real receive loop is fed by the simulator.
+///
+/// [`SimNet`]: crate::verif_hooks::SimNet
+#[cfg(feature = "verif-hooks")]
+impl TransportHandle {
+    /// Build a handle over an empty dual-stack node. `transport_id` is the
+    /// 64-hex-character identity other nodes see on "connections" to this node.
+    pub fn verif_new(
+        peer_id: PeerId,
+        transport_id: String,
+        net: Arc<dyn crate::verif_hooks::SimNet>,
+        connection_timeout: Duration,
+        event_channel_capacity: usize,
+    ) -> Self {
+        let (event_tx, _) = broadcast::channel(event_channel_capacity);
+        Self {
+            peer_id,
+            dual_node: Arc::new(DualStackNetworkNode { v6: None, v4: None }),
+            peers: Arc::new(RwLock::new(HashMap::new())),
+            active_connections: Arc::new(RwLock::new(HashSet::new())),
+            event_tx,
+            listen_addrs: RwLock::new(Vec::new()),
+            rate_limiter: Arc::new(RateLimiter::new(RateLimitConfig::default())),
+            active_requests: Arc::new(RwLock::new(HashMap::new())),
+            geo_provider: Arc::new(BgpGeoProvider::new()),
+            shutdown: CancellationToken::new(),
+            resource_manager: None,
+            connection_timeout,
+            stale_peer_threshold: Duration::from_secs(TEST_STALE_PEER_THRESHOLD_SECS),
+            connection_monitor_handle: Arc::new(RwLock::new(None)),
+            keepalive_handle: Arc::new(RwLock::new(None)),
+            periodic_tasks_handle: Arc::new(RwLock::new(None)),
+            recv_handles: Arc::new(RwLock::new(Vec::new())),
+            listener_handle: Arc::new(RwLock::new(None)),
+            verif: Some(VerifTransport {
+                net,
+                transport_id,
+                inbound_tx: std::sync::Mutex::new(None),
+            }),
+        }
+    }
+
+    /// Start the real receive loop (the dispatcher of `start_message_receiving_system`).
+    pub async fn verif_start(&self, listen_addr: SocketAddr) -> Result<()> {
+        *self.listen_addrs.write().await = vec![listen_addr];
+        self.start_message_receiving_system().await
+    }
+
+    /// Feed one frame into the real receive loop as if it had arrived on the
+    /// authenticated connection of `from_transport_id`. Returns false when the
+    /// receive loop is not running or its queue is full.
+    pub fn verif_deliver(&self, from_transport_id: &str, frame: Vec<u8>) -> bool {
+        let Ok(peer) = crate::transport::ant_quic_adapter::string_to_ant_peer_id(from_transport_id)
+        else {
+            return false;
+        };
+        let Some(v) = self.verif.as_ref() else {
+            return false;
+        };
+        let Ok(slot) = v.inbound_tx.lock() else {
+            return false;
+        };
+        match slot.as_ref() {
+            Some(tx) => tx.try_send((peer, frame)).is_ok(),
+            None => false,
+        }
+    }
+
+    /// The body of the accept loop in `start_network_listeners` for one inbound
+    /// connection: per-IP rate limit, `PeerConnected`, registration.
+    pub async fn verif_accept(&self, remote_transport_id: &str, remote_sock: SocketAddr) -> bool {
+        if self.rate_limiter.check_ip(&remote_sock.ip()).is_err() {
+            return false;
+        }
+        let peer_id = remote_transport_id.to_string();
+        let remote_addr = NetworkAddress::from(remote_sock);
+        broadcast_event(&self.event_tx, P2PEvent::PeerConnected(peer_id.clone()));
+        register_new_peer(&self.peers, &peer_id, &remote_addr).await;
+        self.active_connections.write().await.insert(peer_id);
+        true
+    }
+
+    /// What the connection monitor does on `ConnectionEvent::Lost`.
+    pub async fn verif_connection_lost(&self, remote_transport_id: &str) {
+        self.active_connections
+            .write()
+            .await
+            .remove(remote_transport_id);
+        if let Some(peer_info) = self.peers.write().await.get_mut(remote_transport_id) {
+            peer_info.status = ConnectionStatus::Disconnected;
+            peer_info.last_seen = Instant::now();
+        }
+        broadcast_event(
+            &self.event_tx,
+            P2PEvent::PeerDisconnected(remote_transport_id.to_string()),
+        );
+    }
+
+    /// Number of pending `/rr/` requests.
+    pub async fn verif_active_requests_len(&self) -> usize {
+        self.active_requests.read().await.len()
     }
 }
 
